@@ -4,6 +4,7 @@ CONSTANTS
     MaxNum = 3
     MaxCid = 98
     GenMaxNum = 2
+    RangeHist = "ends"
     MaxHist = 2
     FindPrefersDirectChild = FALSE
     ExcuseDecoy = TRUE
